@@ -91,3 +91,50 @@ Definition valid_redhat (v : redhat) : bool := true.
 
 Definition redhat_eqb (v w : redhat) : bool :=
   bytes_eqb (rh_epoch v) (rh_epoch w) && bytes_eqb (rh_version v) (rh_version w) && bytes_eqb (rh_release v) (rh_release w).
+
+(* ------------------------------------------------------------------ the Go loop of compareRedHatComponents, literally *)
+(* [a] and [b] are the not yet consumed parts a[ai:] and b[bi:].  RedhatLoopProofs.v proves that this
+   equals the tokenise-then-compare form used above. *)
+Definition rh_trim (c : N) : bool := negb (is_letter c) && negb (is_digit c) && negb (c =? 126) && negb (c =? 94).  (* shouldBeTrimmed *)
+Definition head_is (k : N) (s : bytes) : bool := match s with c :: _ => c =? k | [] => false end.
+Definition strip0 (s : bytes) : bytes := drop_while (fun c => c =? 48) s.       (* strings.TrimLeft(s, "0") *)
+
+(* steps 9 and 10 for two digit runs: discard leading zeros, the longer one wins, then strcmp *)
+Definition rh_num_cmp (x y : bytes) : comparison :=
+  let x := strip0 x in let y := strip0 y in
+  match Nat.compare (length x) (length y) with
+  | Eq => bytes_cmp x y
+  | c => c
+  end.
+
+Fixpoint rh_loop (fuel : nat) (a b : bytes) : comparison :=
+  match fuel with
+  | O => Eq
+  | S f =>
+    let a := drop_while rh_trim a in                                  (* 1. trim *)
+    let b := drop_while rh_trim b in
+    if head_is 126 a && head_is 126 b then rh_loop f (tl a) (tl b)    (* 2. both tilde *)
+    else if head_is 126 a then Lt                                      (* 3. *)
+    else if head_is 126 b then Gt
+    else if head_is 94 a && head_is 94 b then rh_loop f (tl a) (tl b)  (* 4. both caret *)
+    else if head_is 94 a then (if is_nil b then Gt else Lt)            (* 5. *)
+    else if head_is 94 b then (if is_nil a then Lt else Gt)
+    else if is_nil a || is_nil b then Nat.compare (length a) (length b)   (* 6. + the comparison of what is left *)
+    else
+      let isd := is_digit (hd 0 a) in                                  (* 7. *)
+      let ty := if isd then is_digit else is_letter in
+      let (xs, ra) := span ty a in
+      let (ys, rb) := span ty b in
+      if is_nil ys then (if isd then Gt else Lt)                       (* 8. *)
+      else match (if isd then rh_num_cmp xs ys else bytes_cmp xs ys) with   (* 9. 10. *)
+           | Eq => rh_loop f ra rb
+           | c => c
+           end
+  end.
+
+Definition rh_loop_component_cmp (a b : bytes) : comparison :=
+  match a, b with
+  | [], _ :: _ => Lt
+  | _ :: _, [] => Gt
+  | _, _ => rh_loop (S (length a + length b)) a b
+  end.
